@@ -319,11 +319,12 @@ def _shards_accepts_dense(tier):
         # quick: edge (0,eps,0) absent; non-empty masks; all words
         return product_pins(kind=[0], starts=[1, 3], finals=[2, 3], b0=[False], b1=[False, True]) + \
             product_pins(kind=[1, 2], starts=[1], finals=[2, 3], b0=[False], b1=[False])
-    return product_pins(kind=[0, 1, 2], starts=[0, 1, 2, 3], b0=[False, True], b1=[False, True])
+    return product_pins(kind=[0], starts=[1, 2, 3], finals=[0, 1, 2, 3], b0=[False, True], b1=[False, True]) + \
+        product_pins(kind=[1, 2], starts=[1, 3], b0=[False], b1=[False])
 
 
 def _shards_accepts_sparse(tier):
-    return product_pins(kind=[0, 1, 2], n=[3], k=[2], m=[2, 3], wlen=[2, 3], t0=[0, 1, 2])
+    return product_pins(kind=[0], n=[3], k=[1], m=[2], starts=[1, 3, 5], wlen=[2], t0=[0, 1, 2])
 
 
 def _shards_structural_dense(tier):
@@ -335,13 +336,14 @@ def _shards_structural_dense(tier):
 
 
 def _shards_structural_sparse(tier):
-    return product_pins(kind=[0, 1, 2], n=[3], k=[1, 2], m=[3, 4], t0=[0, 1, 2], perm=[0, 3, 5])
+    return product_pins(kind=[0], n=[3], k=[1], m=[3], starts=[1, 3], perm=[0], t0=[0, 1, 2], t1=[0, 1]) + \
+        product_pins(kind=[0], n=[3], k=[1], m=[3], starts=[1], perm=[3], t0=[0, 1, 2], t1=[0, 1])
 
 
 def _shards_names(tier):
     if tier == "quick":
         return [p for p in product_pins(l0=[0, 2, 4, 6, 8], l1=[1, 3, 6], starts=[1, 3]) if p["l0"] != p["l1"]]
-    return [p for p in product_pins(l0=list(range(9)), l1=list(range(9)), starts=[1, 2, 3, 5]) if p["l0"] != p["l1"]]
+    return [p for p in product_pins(l0=list(range(9)), l1=list(range(9)), starts=[1, 3]) if p["l0"] < p["l1"]]
 
 
 FUNCS = ["EpsilonNFA.accepts", "NondeterministicFiniteAutomaton.accepts",
@@ -356,26 +358,26 @@ CONDS = [
     Cond("C01", c01_accepts_dense, _shards_accepts_dense,
          {"quick": "eps-NFA with 2 states over {a} (edge (0,eps,0) absent; starts {0}/{0,1}; finals {1}/{0,1}) and "
                    "NFA/DFA (start {0}) x all words of length <=2 over {a, z(outside alphabet), 'epsilon' (eps-NFA only)}",
-          "thorough": "all 2^12 eps-NFA / NFA / DFA with 2 states over {a} x all words of length <=2 over "
-                      "{a, z, 'epsilon'}"},
+          "thorough": "all eps-NFA with 2 states over {a} and a start state, and all NFA / DFA (start {0} or {0,1}) x all "
+                      "words of length <=2 over {a, z, 'epsilon'}"},
          FUNCS, "automaton has an edge, a start and a final state"),
     Cond("C01", c01_accepts_sparse, _shards_accepts_sparse,
-         {"thorough": "3 states, alphabet {a,b}, 2-3 distinct edges (eps allowed), any start mask/final mask, "
-                      "words of length 2-3 over {a,b,z,'epsilon'}"},
+         {"thorough": "3 states, alphabet {a}, 2 distinct edges (eps allowed), start masks {0},{0,1},{0,2}, any final "
+                      "mask, words of length 2 over {a,z,'epsilon'}"},
          FUNCS, "automaton has an edge, a start and a final state", tiers=("thorough",)),
     Cond("C01", c01_structural_dense, _shards_structural_dense,
          {"quick": "all automata with 2 states over {a} and a start state (eps-NFA: 3072; NFA/DFA: all valid ones)",
           "thorough": "same as quick"},
          FUNCS, "automaton has an edge, a start and a final state"),
     Cond("C01", c01_structural_sparse, _shards_structural_sparse,
-         {"thorough": "3 states, alphabet {a} or {a,b}, 3-4 distinct edges, any masks, 3 label/insertion "
-                      "permutations"},
+         {"thorough": "3 states, alphabet {a}, 3 distinct edges, start masks {0},{0,1}, any final mask, identity "
+                      "labels (+ one label/insertion permutation for start {0})"},
          FUNCS, "automaton has an edge, a start and a final state", tiers=("thorough",)),
     Cond("C01", c01_edit, lambda tier: (product_pins(starts=[1], finals=[2], b0=[False], b1=[False, True],
                                                       b2=[False, True], wlen=[2])
                                          if tier == "quick" else
-                                         product_pins(starts=[1, 2, 3], finals=[1, 2, 3], b0=[False, True],
-                                                      b1=[False, True])),
+                                         product_pins(starts=[1, 3], finals=[2, 3], b0=[False], b1=[False, True],
+                                                      b2=[False, True], wlen=[1, 2])),
          {"quick": "eps-NFA with 2 states over {a}, queried, then one of its transitions (symbolic choice) removed "
                    "with remove_transition, then accepts(w) for a symbolic word of length 2 (quick; <=2 thorough) and the four "
                    "transformations, against the reference of the edited automaton",
@@ -385,6 +387,6 @@ CONDS = [
          {"quick": "8 three-state eps-NFA shapes over {a} (different merges in the subset construction) x state labels "
                    "from {0,1,'0','1','0;1','1;0','TRASH','0; 1',''} (first two labels from pinned subsets, third any) x "
                    "start masks {0},{0,1} x all non-empty final masks",
-          "thorough": "all ordered label triples"},
+          "thorough": "all label triples with l0 < l1 (third label any)"},
          FUNCS, "automaton has an edge, a start and a final state"),
 ]
